@@ -70,6 +70,8 @@ DATA_DEPENDENT = [
      "fails when the named file is missing, unreadable or not what was expected: the path is written by the user"),
     (r"^ordered_float::NotNan::<T>::new$", "fails for NaN: the text \"nan\" parses as a float (str::parse, nom's double), and inf * 0 or inf - inf is NaN"),
     (r"^chrono::FixedOffset::(east|west)_opt$", "None for an offset of a day or more"),
+    (r"::(encrypt|decrypt)_padded(_vec|_b2b|_inout|_mut|_vec_mut)?$|BlockMode(Encrypt|Decrypt)>::(encrypt|decrypt)_padded",
+     "block-mode padding fails with PadError/UnpadError depending on the length (output buffer shorter than the padded plaintext) or content (invalid padding) of the run-time message"),
     (r"^chrono::Naive(Date|Time)::from_(ymd|hms|hms_milli|hms_micro|hms_nano|yo|num_days_from_ce)_opt$", "None for an out-of-range component"),
 ]
 DATA_DEPENDENT_OK = {
